@@ -20,9 +20,9 @@ Section WithDefaults.
 
   (* get_all_type_info: one entry per non-constant field, in get_all_fields_by_name order *)
   Definition stub_entry (required : list pystr) (f : fdecl) : sparam :=
-    if negb (str_in (f_name f) required) && negb (starts_optional (f_tok f))
-    then (f_name f, true)                       (* f"Optional[{t}] = None" *)
-    else (f_name f, ends_none (f_tok f)).
+    if negb (str_in (f_name f) required)
+    then (f_name f, true)                       (* f"{t} = None", t wrapped in Optional[...] unless it starts with it *)
+    else (f_name f, ends_none (f_tok f)).       (* a required field: the type text as it is *)
 
   Definition type_info (C : hier) : list sparam :=
     map (stub_entry (required_attr apd_run C))
@@ -67,13 +67,13 @@ Section WithDefaults.
     forallb (fun n => negb (str_in n reserved)) (all_names C).
 
   (* --- the predicates under which the pinned generator agrees with the run time *)
-  (* a required field whose type renders as "Optional[X] = None", or an optional one whose type
-     renders as bare "Optional[X]", gets the wrong default marker *)
+  (* the default marker is decided by _required alone; only a required field whose type TEXT itself ends with
+     "= None" would get the wrong marker (get_type_info renders no such text: AnyOf[X, None] and typing.Optional[X]
+     are "Optional[X]") *)
   Definition tok_safe_field (required : list pystr) (f : fdecl) : bool :=
     match f_tok f with
-    | TPlain => true
     | TOptNone => negb (str_in (f_name f) required)
-    | TOptBare => str_in (f_name f) required
+    | TPlain | TOptBare => true
     end.
   Definition tok_safe (C : hier) : bool :=
     forallb (tok_safe_field (required_attr apd_run C))
